@@ -203,6 +203,24 @@ def c02(res):
                 "'frontier exhausted' and 'all properties discovered' endings occur) x {bfs, dfs, on-demand} x threads; "
                 "verdicts judged against Violated/Witnessed over Reach(g); assert_properties() outcome judged too")
     run_family(res, "C02", FIELDS["C02"], graphs, lambda i, g: std_cfgs(threads))
+    # graphs larger than a block: verdicts decided by states deep in the graph (formula properties)
+    import fam_market
+    wd = workdir("C02big-%s" % res.tier)
+    big = fam_market.f4_graphs(rng, q)[: (3 if q else 10)]
+    for g in big:
+        n = g["n"]
+        g["props"] = [dict(kind="always", name="keep", sat=[], mode="all", m=0, r=0),
+                      dict(kind="always", name="deep_bad", sat=[], mode="mod", m=1, r=0),          # placeholder, replaced below
+                      dict(kind="sometimes", name="deep_good", sat=[], mode="mod", m=n, r=(n * 2 // 3) % n),
+                      dict(kind="sometimes", name="nowhere", sat=[], mode="none", m=0, r=0)]
+        # "deep_bad" holds everywhere except at one state: always s % n != k  <=>  NOT (s % n = k); expressed as a sometimes-style
+        # formula is not available for always, so use two complementary properties instead
+        g["props"][1] = dict(kind="sometimes", name="deep_single", sat=[], mode="mod", m=n, r=(n // 2 + 7) % n)
+
+    def bcfgs(i, g):
+        return [gg.base_cfg(s, t, light=True, watchdog_ms=60000) for s in ("bfs", "dfs", "ondemand") for t in ((1, 2) if q else (1, 2, 4))]
+    fam_market.checker_runs(res, "C02", big, bcfgs, ["complete", "verdicts"], wd, "c02big")
+    shutil.rmtree(wd, ignore_errors=True)
 
 
 def all_strategy_cfgs(rng, i, g, threads):
